@@ -13,8 +13,10 @@ import (
 	"io"
 	"os"
 	"path/filepath"
+	"runtime/debug"
 	"sort"
 	"strings"
+	"sync"
 
 	"github.com/anz-bank/sysl/pkg/cmdutils"
 	"github.com/anz-bank/sysl/pkg/parse"
@@ -52,6 +54,7 @@ func (prop) Info() fw.Info {
 			"diagrams are capped at 1500 call arrows by regenerating sparser models (the expansion enumerates simple paths)",
 		},
 		CaseTimeout: 120,
+		MaxRSSMB:    1536,
 		SetFloors:   map[string]int{"shapes": 25},
 		CountFloors: map[string]int{
 			"diagrams": 1000, "arrows_checked": 5000, "activations_checked": 3000, "blocks_checked": 1000,
@@ -155,7 +158,21 @@ func arrowsText(as [][3]string, kinds []string) string {
 	return b.String()
 }
 
+var guardOnce sync.Once
+
+// resourceGuard lowers the goroutine stack limit of this worker process. A broken
+// recursion cut recurses without end and every level indents the output by one more
+// column, so memory grows quadratically with depth long before the default 1 GB stack is
+// exhausted. With a 4 MB limit the runaway dies promptly as `fatal error: stack overflow`
+// (attributed to the case by the driver); legitimate expansions are at most as deep as
+// the model has endpoints (<= 24). The framework's RSS watchdog (Info.MaxRSSMB) is the
+// second net. Neither takes part in a verdict on a terminating run.
+func resourceGuard() {
+	guardOnce.Do(func() { debug.SetMaxStack(4 << 20) })
+}
+
 func (prop) Run(ctx *fw.Ctx, i int) fw.Result {
+	resourceGuard()
 	r := ctx.Rng()
 	m, attempts := Generate(r.Fork())
 	text := Render(m)
